@@ -3,86 +3,88 @@ import N2k.Lemmas.TPLinkMain
 namespace N2k.TP
 open N2k.Send N2k.Time N2k.Spec
 
+variable {i : Nat}
+
 /-! ## sender -/
 
 /-- `SendMsg` of a transport-flagged message of more than 8 bytes to the global address: the BAM announce goes out -/
-theorem sendMsgTP_start_bam (a : Node) (m : Msg) (d : Dev) (hq : Quiet a.s 0) (hd : a.s.devs[0]? = some d)
+theorem sendMsgTP_start_bam (a : Node) (m : Msg) (d : Dev) (hq : Quiet a.s i) (hd : a.s.devs[i]? = some d)
     (hlow : m.pgn &&& 0xff = 0) (hp0 : m.pgn ≠ 0) (hid : n2kToCanId m.prio m.pgn d.source m.dst ≠ 0)
-    (htp : m.tp = true) (h9 : 9 ≤ m.len) (hdst : m.dst = 255) (hidle : (a.tp 0).pend.pgn = 0) :
-    sendMsgTP a m (some 0) =
-      (a.upd (txTp a (pendMsg m d) 0 a.s.now 50) a.slots a.out
+    (htp : m.tp = true) (h9 : 9 ≤ m.len) (hdst : m.dst = 255) (hidle : (a.tp i).pend.pgn = 0) :
+    sendMsgTP a m (some i) =
+      (a.upd (txTp i a (pendMsg m d) 0 a.s.now 50) a.slots a.out
           (a.s.drv.sent ++ [cmFrame d.source 255 (announceBytes 32 (pendMsg m d))]) a.rxq, true) := by
   unfold sendMsgTP
-  rw [gate_quiet a.s 0 m d hq hd hlow hp0 hid]
+  rw [gate_quiet a.s i m d hq hd hlow hp0 hid]
   have hbig : m.tp = true ∧ ¬ (m.len ≤ 8 ∧ ¬ (m.prio < 0x80 ∧ isFastPacketPGN a.s.lists m.pgn = true)) := by
     refine ⟨htp, ?_⟩; intro h; omega
   simp only []
   rw [if_pos hbig]
   simp only [Option.getD_some, hlow, srcOf, ne_eq, not_true_eq_false, ↓reduceIte]
   unfold startSendTP
-  have hlen : ¬ (0 ≥ a.s.devs.length) := by
+  have hlen : ¬ (i ≥ a.s.devs.length) := by
     intro h
-    have : a.s.devs[0]? = none := List.getElem?_eq_none h
+    have : a.s.devs[i]? = none := List.getElem?_eq_none h
     rw [this] at hd; cases hd
-  have hidle' : ¬ ((a.tp 0).pend.pgn ≠ 0) := by simp [hidle]
+  have hidle' : ¬ ((a.tp i).pend.pgn ≠ 0) := by simp [hidle]
   simp only [hlen, hidle', ↓reduceIte]
   rw [if_pos (show m.dst = 0xff from hdst)]
   unfold sendBAM
   simp only [Node.setTp_s, hq.active, not_true_eq_false, ↓reduceIte]
-  rw [announce_quiet 32 _ 0 d (by simpa using hq) (by simpa using hd) 255 (by omega)]
+  rw [announce_quiet 32 _ i d (by simpa using hq) (by simpa using hd) 255 (by omega)]
   simp only [Node.setTp_tp, ↓reduceIte]
   rfl
 
 /-- the sender's transport state after BAM data packet `seq` (0-based) went out at time `t` -/
-def bamTp (a : Node) (m : Msg) (seq t : Nat) : Nat → TpDev :=
-  if seq + 1 < tpPacketCount m.len then txTp a m (seq + 1) t a.bamGap else doneTp a m (seq + 1)
+def bamTp (i : Nat) (a : Node) (m : Msg) (seq t : Nat) : Nat → TpDev :=
+  if seq + 1 < tpPacketCount m.len then txTp i a m (seq + 1) t a.bamGap else doneTp i a m (seq + 1)
 
 /-- **the sender polls when the 50 ms pacing timer is due**: exactly one data packet; after the last one the transfer is over -/
 theorem poll_bam (a : Node) (d : Dev) (m : Msg) (seq t0 tmo : Nat) (sl : List Slot) (out : List Delivery)
-    (hd : Lead a d) (hq : Quiet a.s 0) (hi : InfoIdle a 0) (hm : m.dst = 255) (hp0 : m.pgn ≠ 0) (hlen : m.len ≤ 223)
+    (hd : Lead a i d) (hq : Quiet a.s i) (hi : InfoIdle a i) (hm : m.dst = 255) (hp0 : m.pgn ≠ 0) (hlen : m.len ≤ 223)
     (hdue : t0 + tmo + 1 ≤ a.s.now ∧ a.s.now < t0 + tmo + INT32_MAX) (h64 : a.s.now + 100 < M64)
     (hseq : seq < tpPacketCount m.len) :
-    poll (a.upd (txTp a m seq t0 tmo) sl out [] []) =
-      a.upd (bamTp a m seq a.s.now) sl out [dtFrame d.source m seq] [] := by
+    poll (a.upd (txTp i a m seq t0 tmo) sl out [] []) =
+      a.upd (bamTp i a m seq a.s.now) sl out [dtFrame d.source m seq] [] := by
   have hpc := tpPacketCount_le m.len hlen
-  generalize hN : a.upd (txTp a m seq t0 tmo) sl out [] [] = N
-  have hNq : Quiet N.s 0 := by subst hN; exact upd_quiet _ _ _ _ _ _ hq
-  have hNd : Lead N d := by subst hN; exact hd.upd _ _ _ _ _ (fun k hk => by simp [txTp, Nat.ne_of_gt hk, hd.others k hk])
-  have hNd0 : N.s.devs[0]? = some d := hNd.dev0
-  have hNt : (N.tp 0).timer.isTime N.s.flavor N.s.now = true := by
+  generalize hN : a.upd (txTp i a m seq t0 tmo) sl out [] [] = N
+  have hNq : Quiet N.s i := by subst hN; exact upd_quiet _ _ _ _ _ _ hq
+  have hNd : Lead N i d := by subst hN; exact hd.upd _ _ _ _ _ (fun k hk => by simp [txTp, hk, hd.others k hk])
+  have hNd0 : N.s.devs[i]? = some d := hNd.dev0
+  have hNt : (N.tp i).timer.isTime N.s.flavor N.s.now = true := by
     subst hN
     simp only [upd_tp, txTp, ↓reduceIte, upd_flavor, upd_now]
     exact isTime_fromNow_late _ _ _ _ hdue.1 hdue.2 (by omega)
-  have hpend : (N.tp 0).pend = m := by subst hN; simp [txTp]
-  have hns : (N.tp 0).nextSeq = seq := by subst hN; simp [txTp]
-  have hhp : (N.tp 0).hasPending = true := by subst hN; simp [txTp]
+  have hpend : (N.tp i).pend = m := by subst hN; simp [txTp]
+  have hns : (N.tp i).nextSeq = seq := by subst hN; simp [txTp]
+  have hhp : (N.tp i).hasPending = true := by subst hN; simp [txTp]
   have hrx : N.rxq = [] := by subst hN; rfl
   unfold poll
-  rw [flush_quiet N 0 hNq, pendingAll_solo N d hNd (by subst hN; exact hi), hhp, hrx]
+  rw [flush_quiet N i hNq, pendingAll_solo N d hNd (by subst hN; exact hi), hhp, hrx]
   simp only [↓reduceIte, List.take_nil, List.drop_nil, rxList, List.foldl_nil]
-  have hpt : pendingTP N 0 =
+  have hpt : pendingTP N i =
       (if tpPacketCount m.len ≤ seq + 1
-       then endSendTP (setTimer ((N.setTp 0 { N.tp 0 with nextSeq := ((N.tp 0).nextSeq + 1) % 256 }).pushes
-              [dtFrame d.source (N.tp 0).pend (N.tp 0).nextSeq]) 0 N.bamGap) 0
-       else setTimer ((N.setTp 0 { N.tp 0 with nextSeq := ((N.tp 0).nextSeq + 1) % 256 }).pushes
-              [dtFrame d.source (N.tp 0).pend (N.tp 0).nextSeq]) 0 N.bamGap) := by
+       then endSendTP (setTimer ((N.setTp i { N.tp i with nextSeq := ((N.tp i).nextSeq + 1) % 256 }).pushes
+              [dtFrame d.source (N.tp i).pend (N.tp i).nextSeq]) i N.bamGap) i
+       else setTimer ((N.setTp i { N.tp i with nextSeq := ((N.tp i).nextSeq + 1) % 256 }).pushes
+              [dtFrame d.source (N.tp i).pend (N.tp i).nextSeq]) i N.bamGap) := by
     unfold pendingTP
-    have hc : (N.tp 0).pend.pgn ≠ 0 ∧ (N.tp 0).timer.isTime N.s.flavor N.s.now = true := ⟨by rw [hpend]; exact hp0, hNt⟩
-    have hb : (N.tp 0).pend.dst = 0xff := by rw [hpend]; exact hm
+    have hc : (N.tp i).pend.pgn ≠ 0 ∧ (N.tp i).timer.isTime N.s.flavor N.s.now = true := ⟨by rw [hpend]; exact hp0, hNt⟩
+    have hb : (N.tp i).pend.dst = 0xff := by rw [hpend]; exact hm
     simp only []
     rw [if_pos hc, if_pos hb]
-    rw [sendTPDT_quiet N 0 d hNq hNd0 (by rw [hb]; omega)]
+    rw [sendTPDT_quiet N i d hNq hNd0 (by rw [hb]; omega)]
     simp only []
-    have hX : hasAllSent (setTimer ((N.setTp 0 { N.tp 0 with nextSeq := ((N.tp 0).nextSeq + 1) % 256 }).pushes
-          [dtFrame d.source (N.tp 0).pend (N.tp 0).nextSeq]) 0 N.bamGap) 0 = true ↔ tpPacketCount m.len ≤ seq + 1 := by
+    have hX : hasAllSent (setTimer ((N.setTp i { N.tp i with nextSeq := ((N.tp i).nextSeq + 1) % 256 }).pushes
+          [dtFrame d.source (N.tp i).pend (N.tp i).nextSeq]) i N.bamGap) i = true ↔ tpPacketCount m.len ≤ seq + 1 := by
       rw [hasAllSent_iff]; simp [setTimer, Node.setTp, hpend, hns, Nat.mod_eq_of_lt (show seq + 1 < 256 by omega)]
     by_cases hall : tpPacketCount m.len ≤ seq + 1
     · rw [if_pos hall, if_pos (hX.2 hall)]
     · rw [if_neg hall, if_neg (fun h => hall (hX.1 h))]
   rw [hpt]
   subst hN
-  have hres : ∀ X : Node, X = a.upd (bamTp a m seq a.s.now) sl out [dtFrame d.source m seq] [] →
-      claimTick { X with rxq := [] } = a.upd (bamTp a m seq a.s.now) sl out [dtFrame d.source m seq] [] := by
+  have hres : ∀ X : Node, X = a.upd (bamTp i a m seq a.s.now) sl out [dtFrame d.source m seq] [] →
+      claimTick { X with rxq := [] } = a.upd (bamTp i a m seq a.s.now) sl out [dtFrame d.source m seq] [] := by
     intro X hX; subst hX
     exact claimTick_lead _ hd.claims
   apply hres
@@ -92,14 +94,16 @@ theorem poll_bam (a : Node) (d : Dev) (m : Msg) (seq t0 tmo : Nat) (sl : List Sl
     simp only [endSendTP, setTimer, upd_setTp, upd_pushes, upd_tp, upd_flavor, upd_now, List.nil_append]
     unfold Node.upd
     congr 1
-    · funext j
-      by_cases hj : j = 0 <;> simp [txTp, doneTp, hj, hi.1, hi.2, Nat.mod_eq_of_lt (show seq + 1 < 256 by omega)]
+    all_goals first
+      | (funext j; by_cases hj : j = i <;> simp [txTp, doneTp, hj, hi.1, hi.2, Nat.mod_eq_of_lt (show seq + 1 < 256 by omega)])
+      | simp [txTp]
   · rw [if_neg hall, if_pos (by omega)]
     simp only [setTimer, upd_setTp, upd_pushes, upd_tp, upd_flavor, upd_now, List.nil_append]
     unfold Node.upd
     congr 1
-    · funext j
-      by_cases hj : j = 0 <;> simp [txTp, hj, Nat.mod_eq_of_lt (show seq + 1 < 256 by omega)]
+    all_goals first
+      | (funext j; by_cases hj : j = i <;> simp [txTp, hj, Nat.mod_eq_of_lt (show seq + 1 < 256 by omega)])
+      | simp [txTp]
 
 
 /-! ## receiver -/
@@ -175,7 +179,7 @@ theorem rxB_last (mt k : Nat) (out : List Delivery) (fs rxq : List Frame) (hsrc 
   simp only [sessB, bamSlot, startSlot] at e1 ⊢
   simp [e1, delivered]
 
-variable (hd : Lead b db) (hq : Quiet b.s 0) (hnotp : (b.tp 0).hasPending = false) (hib : InfoIdle b 0)
+variable (hd : Lead b i db) (hq : Quiet b.s i) (hnotp : (b.tp i).hasPending = false) (hib : InfoIdle b i)
 include hd hq hnotp hib
 
 /-- the listening node polls with the BAM announce in its queue -/
@@ -186,8 +190,8 @@ theorem poll_bam_announce (hsrc : srcA < 256) (hlen : m.len ≤ 223) (hpgn : m.p
     poll (b.upd b.tp b.slots [] [] [cmFrame srcA 255 (announceBytes 32 m)]) =
       rcvB b m srcA j S' a0 (millis32 b.s.now) [] 0 [] [] := by
   generalize hN : b.upd b.tp b.slots [] [] [cmFrame srcA 255 (announceBytes 32 m)] = N
-  have hNq : Quiet N.s 0 := by subst hN; exact upd_quiet _ _ _ _ _ _ hq
-  have hNd : Lead N db := by subst hN; exact hd.same _ _ _ _
+  have hNq : Quiet N.s i := by subst hN; exact upd_quiet _ _ _ _ _ _ hq
+  have hNd : Lead N i db := by subst hN; exact hd.same _ _ _ _
   rw [poll_solo N db hNd hNq (by subst hN; exact hib) (fun h => by subst hN; simp [hnotp] at h) (by subst hN; simp)]
   have hrx : N.rxq = [cmIn srcA 255 (announceBytes 32 m)] := by subst hN; rfl
   rw [hrx]
@@ -219,8 +223,8 @@ theorem poll_bam_mid (mt k : Nat) (hsrc : srcA < 256) (hdst : m.dst = 255)
     (hnone : findIdx (sessOf srcA 255) S' = none) (hj : j < S'.length) (hreq : a0.reqCTS = 0)
     (hk : 7 * (k + 1) < m.len) (hlen : m.len ≤ 223) :
     poll (rcvB b m srcA j S' a0 mt [] k [] [dtFrame srcA m k]) = rcvB b m srcA j S' a0 (millis32 b.s.now) [] (k + 1) [] [] := by
-  have hNd : Lead (rcvB b m srcA j S' a0 mt [] k [] [dtFrame srcA m k]) db := hd.same _ _ _ _
-  have hNq : Quiet (rcvB b m srcA j S' a0 mt [] k [] [dtFrame srcA m k]).s 0 := upd_quiet _ _ _ _ _ _ hq
+  have hNd : Lead (rcvB b m srcA j S' a0 mt [] k [] [dtFrame srcA m k]) i db := hd.same _ _ _ _
+  have hNq : Quiet (rcvB b m srcA j S' a0 mt [] k [] [dtFrame srcA m k]).s i := upd_quiet _ _ _ _ _ _ hq
   rw [poll_solo _ db hNd hNq hib (fun h => by simp [rcvB, hnotp] at h) (by simp [rcvB])]
   have hrxq : (rcvB b m srcA j S' a0 mt [] k [] [dtFrame srcA m k]).rxq = [dtFrame srcA m k] := rfl
   rw [hrxq]
@@ -233,8 +237,8 @@ theorem poll_bam_last (mt k : Nat) (hsrc : srcA < 256) (hdst : m.dst = 255)
     (hnone : findIdx (sessOf srcA 255) S' = none) (hj : j < S'.length) (hreq : a0.reqCTS = 0)
     (hk : m.len ≤ 7 * (k + 1)) (hk' : 7 * k < m.len) (hlen : m.len ≤ 223) (hl : m.len ≤ m.data.length) :
     ∃ S'', poll (rcvB b m srcA j S' a0 mt [] k [] [dtFrame srcA m k]) = b.upd b.tp S'' [delivered m srcA 255] [] [] := by
-  have hNd : Lead (rcvB b m srcA j S' a0 mt [] k [] [dtFrame srcA m k]) db := hd.same _ _ _ _
-  have hNq : Quiet (rcvB b m srcA j S' a0 mt [] k [] [dtFrame srcA m k]).s 0 := upd_quiet _ _ _ _ _ _ hq
+  have hNd : Lead (rcvB b m srcA j S' a0 mt [] k [] [dtFrame srcA m k]) i db := hd.same _ _ _ _
+  have hNq : Quiet (rcvB b m srcA j S' a0 mt [] k [] [dtFrame srcA m k]).s i := upd_quiet _ _ _ _ _ _ hq
   rw [poll_solo _ db hNd hNq hib (fun h => by simp [rcvB, hnotp] at h) (by simp [rcvB])]
   have hrxq : (rcvB b m srcA j S' a0 mt [] k [] [dtFrame srcA m k]).rxq = [dtFrame srcA m k] := rfl
   rw [hrxq]
@@ -271,16 +275,16 @@ theorem found_slot_silent (slots : List Slot) (pgn src j : Nat) (a0 : Slot)
   · rw [if_neg hs] at hfree ⊢; exact hinv x hx hfree
 
 section
-variable (a b : Node) (da db : Dev) (m : Msg) (j : Nat) (S' : List Slot) (a0 : Slot)
+variable (a b : Node) (ia ib : Nat) (da db : Dev) (m : Msg) (j : Nat) (S' : List Slot) (a0 : Slot)
 
 structure BamHyp : Prop where
-  devA : Lead a da
-  devB : Lead b db
-  qa : Quiet a.s 0
-  qb : Quiet b.s 0
-  bIdle : (b.tp 0).hasPending = false
-  aInfo : InfoIdle a 0
-  bInfo : InfoIdle b 0
+  devA : Lead a ia da
+  devB : Lead b ib db
+  qa : Quiet a.s ia
+  qb : Quiet b.s ib
+  bIdle : (b.tp ib).hasPending = false
+  aInfo : InfoIdle a ia
+  bInfo : InfoIdle b ib
   mdst : m.dst = 255
   len9 : 9 ≤ m.len
   len223 : m.len ≤ 223
@@ -293,32 +297,32 @@ structure BamHyp : Prop where
   ha0 : S'[j]? = some a0
   hreq : a0.reqCTS = 0
 
-variable {a b da db m j S' a0}
+variable {a b ia ib da db m j S' a0}
 
-theorem BamHyp.srcA (h : BamHyp a b da db m j S' a0) : da.source ≤ 251 := by
+theorem BamHyp.srcA (h : BamHyp a b ia ib da db m j S' a0) : da.source ≤ 251 := by
   exact h.devA.src h.qa
 
-theorem BamHyp.none (h : BamHyp a b da db m j S' a0) : findIdx (sessOf da.source 255) S' = none := by
+theorem BamHyp.none (h : BamHyp a b ia ib da db m j S' a0) : findIdx (sessOf da.source 255) S' = none := by
   rw [h.hS]
   apply findIdx_none_of_all
   intro x hx
   obtain ⟨c, _, hc⟩ := List.mem_map.1 hx
   rw [← hc]; exact sessOf_freeSess _ _ c
 
-theorem BamHyp.jlt (h : BamHyp a b da db m j S' a0) : j < S'.length := findIdx_lt _ _ _ h.hj
+theorem BamHyp.jlt (h : BamHyp a b ia ib da db m j S' a0) : j < S'.length := findIdx_lt _ _ _ h.hj
 
 /-- the sender after BAM data packet `k` went out at time `tA` -/
-def sndB (a : Node) (da : Dev) (m : Msg) (tA k : Nat) : Node :=
-  (atTime a tA).upd (bamTp a m k tA) a.slots a.out [dtFrame da.source m k] []
+def sndB (ia : Nat) (a : Node) (da : Dev) (m : Msg) (tA k : Nat) : Node :=
+  (atTime a tA).upd (bamTp ia a m k tA) a.slots a.out [dtFrame da.source m k] []
 
-theorem bamTp_atTime (n : Node) (t : Nat) (m : Msg) (seq t1 : Nat) : bamTp (atTime n t) m seq t1 = bamTp n m seq t1 := rfl
+theorem bamTp_atTime (i : Nat) (n : Node) (t : Nat) (m : Msg) (seq t1 : Nat) : bamTp i (atTime n t) m seq t1 = bamTp i n m seq t1 := rfl
 
 /-- first round: the BAM announce is heard; at least 51 ms later the sender's poll sends data packet 1 -/
-theorem roundB_first (h : BamHyp a b da db m j S' a0) (tA tB dB dA : Nat) (hdA : 51 ≤ dA ∧ dA < INT32_MAX)
+theorem roundB_first (h : BamHyp a b ia ib da db m j S' a0) (tA tB dB dA : Nat) (hdA : 51 ≤ dA ∧ dA < INT32_MAX)
     (h64 : tA + dA + 100 < M64) :
-    round dB dA ((atTime a tA).upd (txTp a m 0 tA 50) a.slots a.out [cmFrame da.source 255 (announceBytes 32 m)] [],
+    round dB dA ((atTime a tA).upd (txTp ia a m 0 tA 50) a.slots a.out [cmFrame da.source 255 (announceBytes 32 m)] [],
                  (atTime b tB).upd b.tp b.slots [] [] []) =
-      (sndB a da m (tA + dA) 0, rcvB (atTime b (tB + dB)) m da.source j S' a0 (millis32 (tB + dB)) [] 0 [] []) := by
+      (sndB ia a da m (tA + dA) 0, rcvB (atTime b (tB + dB)) m da.source j S' a0 (millis32 (tB + dB)) [] 0 [] []) := by
   have hsa := h.srcA
   have hnp : 2 ≤ tpPacketCount m.len := by have := h.len9; unfold tpPacketCount; omega
   unfold round
@@ -336,10 +340,10 @@ theorem roundB_first (h : BamHyp a b da db m j S' a0) (tA tB dB dA : Nat) (hdA :
   rfl
 
 /-- a middle round: data packet `k` is heard; at least 51 ms after its last poll the sender sends packet `k+1` -/
-theorem roundB_mid (h : BamHyp a b da db m j S' a0) (k tA tB mt dB dA : Nat) (hk : k + 1 < tpPacketCount m.len)
+theorem roundB_mid (h : BamHyp a b ia ib da db m j S' a0) (k tA tB mt dB dA : Nat) (hk : k + 1 < tpPacketCount m.len)
     (hdA : a.bamGap + 1 ≤ dA ∧ dA < INT32_MAX) (h64 : tA + dA + 100 < M64) :
-    round dB dA (sndB a da m tA k, rcvB (atTime b tB) m da.source j S' a0 mt [] k [] []) =
-      (sndB a da m (tA + dA) (k + 1), rcvB (atTime b (tB + dB)) m da.source j S' a0 (millis32 (tB + dB)) [] (k + 1) [] []) := by
+    round dB dA (sndB ia a da m tA k, rcvB (atTime b tB) m da.source j S' a0 mt [] k [] []) =
+      (sndB ia a da m (tA + dA) (k + 1), rcvB (atTime b (tB + dB)) m da.source j S' a0 (millis32 (tB + dB)) [] (k + 1) [] []) := by
   have hsa := h.srcA
   have htight := tpPacketCount_tight m.len (by have := h.len9; omega)
   unfold round sndB rcvB
@@ -351,7 +355,7 @@ theorem roundB_mid (h : BamHyp a b da db m j S' a0) (k tA tB mt dB dA : Nat) (hk
   rw [show (atTime b tB).tp = b.tp from rfl]
   rw [hp]
   simp only [wire_upd, List.append_nil, advance_upd]
-  have hbt : bamTp a m k tA = txTp a m (k + 1) tA a.bamGap := by unfold bamTp; rw [if_pos hk]
+  have hbt : bamTp ia a m k tA = txTp ia a m (k + 1) tA a.bamGap := by unfold bamTp; rw [if_pos hk]
   rw [hbt]
   have hc := poll_bam (atTime a (tA + dA)) da m (k + 1) tA a.bamGap a.slots a.out (h.devA.atTime _) (atTime_quiet _ h.qa) h.aInfo h.mdst h.pgn0 h.len223
     ⟨by show tA + a.bamGap + 1 ≤ tA + dA; omega, by show tA + dA < tA + a.bamGap + INT32_MAX; omega⟩ (by show tA + dA + 100 < M64; exact h64) hk
@@ -360,9 +364,9 @@ theorem roundB_mid (h : BamHyp a b da db m j S' a0) (k tA tB mt dB dA : Nat) (hk
   rfl
 
 /-- the last round: the last data packet is heard and delivered; the sender has nothing left to do -/
-theorem roundB_last (h : BamHyp a b da db m j S' a0) (k tA tB mt dB dA : Nat) (hk : k + 1 = tpPacketCount m.len) :
-    ∃ S'', round dB dA (sndB a da m tA k, rcvB (atTime b tB) m da.source j S' a0 mt [] k [] []) =
-      ((atTime a (tA + dA)).upd (doneTp a m (tpPacketCount m.len)) a.slots a.out [] [],
+theorem roundB_last (h : BamHyp a b ia ib da db m j S' a0) (k tA tB mt dB dA : Nat) (hk : k + 1 = tpPacketCount m.len) :
+    ∃ S'', round dB dA (sndB ia a da m tA k, rcvB (atTime b tB) m da.source j S' a0 mt [] k [] []) =
+      ((atTime a (tA + dA)).upd (doneTp ia a m (tpPacketCount m.len)) a.slots a.out [] [],
        (atTime b (tB + dB)).upd b.tp S'' [delivered m da.source 255] [] []) := by
   have hsa := h.srcA
   have htight := tpPacketCount_tight m.len (by have := h.len9; omega)
@@ -377,18 +381,18 @@ theorem roundB_last (h : BamHyp a b da db m j S' a0) (k tA tB mt dB dA : Nat) (h
   rw [hp]
   refine ⟨S'', ?_⟩
   simp only [wire_upd, List.append_nil, advance_upd]
-  have hbt : bamTp a m k tA = doneTp a m (tpPacketCount m.len) := by unfold bamTp; rw [if_neg (by omega), hk]
+  have hbt : bamTp ia a m k tA = doneTp ia a m (tpPacketCount m.len) := by unfold bamTp; rw [if_neg (by omega), hk]
   rw [hbt]
-  have hidle := poll_idle ((atTime a (tA + dA)).upd (doneTp a m (tpPacketCount m.len)) a.slots a.out [] []) da ((h.devA.atTime _).upd _ _ _ _ _ (fun k hk => by simp [doneTp, Nat.ne_of_gt hk, h.devA.others k hk]))
+  have hidle := poll_idle ((atTime a (tA + dA)).upd (doneTp ia a m (tpPacketCount m.len)) a.slots a.out [] []) da ((h.devA.atTime _).upd _ _ _ _ _ (fun k hk => by simp [doneTp, hk, h.devA.others k hk]))
     (upd_quiet _ _ _ _ _ _ (atTime_quiet _ h.qa)) h.aInfo (fun hh => by simp [doneTp] at hh) rfl
   rw [hidle]
 
 /-- from any packet on, the BAM transfer completes in the remaining number of rounds, whatever the delays from 51 ms on -/
-theorem roundsB_complete (h : BamHyp a b da db m j S' a0) : ∀ (fuel k tA tB mt : Nat) (ds : List (Nat × Nat)),
+theorem roundsB_complete (h : BamHyp a b ia ib da db m j S' a0) : ∀ (fuel k tA tB mt : Nat) (ds : List (Nat × Nat)),
     k < tpPacketCount m.len → tpPacketCount m.len - k ≤ fuel → fuel ≤ ds.length → (∀ p ∈ ds, a.bamGap + 1 ≤ p.2 ∧ p.2 < INT32_MAX) →
     tA + totalA ds + 100 < M64 →
-    ∃ r S'' tA' tB', r ≤ fuel ∧ rounds (ds.take r) (sndB a da m tA k, rcvB (atTime b tB) m da.source j S' a0 mt [] k [] []) =
-      ((atTime a tA').upd (doneTp a m (tpPacketCount m.len)) a.slots a.out [] [],
+    ∃ r S'' tA' tB', r ≤ fuel ∧ rounds (ds.take r) (sndB ia a da m tA k, rcvB (atTime b tB) m da.source j S' a0 mt [] k [] []) =
+      ((atTime a tA').upd (doneTp ia a m (tpPacketCount m.len)) a.slots a.out [] [],
        (atTime b tB').upd b.tp S'' [delivered m da.source 255] [] [])
   | 0, k, _, _, _, _, hk, hf, _, _, _ => by omega
   | fuel+1, k, tA, tB, mt, [], _, _, hl, _, _ => by simp at hl
